@@ -315,6 +315,13 @@ def probe_faults(scenario: str = "wt_overwrite_nohash"):
             env = rr.get("envelope") or {}
             if env.get("status") == "success":
                 return True, f"the target was rewritten (same length, same timestamps) before call #{k}:{names[k]}, i.e. before the writer's temp file was complete, yet the writer holding the old base_hash succeeded"
+    # failures that are not OSErrors (text that cannot be encoded): the cleanup must not depend on the exception class
+    for s2 in F.scenarios():
+        if "unencodable" in s2["name"] and s2["tool"] == scn["tool"]:
+            r2 = F.sweep(s2, pairs=False, cores=1)
+            bad2 = [v for v in r2["violations"] if v["what"].split(":", 1)[0] not in ("exception_escaped", "spurious_hash_mismatch", "cas_absent_target_written")]
+            if bad2:
+                return True, f"{s2['name']}: {bad2[0]['mode']} at {bad2[0]['at']}: {bad2[0]['what'][:160]}"
     return False, f"{r['evaluations']} fault/kill points and {len(tr['calls'])} external-change points of {scenario}: target always old-or-new, no temp file left after an error"
 
 
@@ -521,7 +528,7 @@ def probe_failed_calls_noop(cores: int = 1) -> tuple[bool, str]:
         n += r["evaluations"]
         for v in r["violations"]:
             lab = v["what"].split(":", 1)[0]
-            if lab.startswith("noop_") or lab in ("error_target_changed", "tmp_left"):
+            if lab.startswith(("noop_", "leftover_")) or lab in ("error_target_changed", "tmp_left"):
                 bad.append(f"{scn['name']} {v['mode']} at {v['at']} ({v['errno']}): {v['what'][:140]}")
     return bool(bad), "; ".join(bad[:3]) or f"{n} fault / kill points over {len(NOOP_SCENARIOS)} scenarios: every call that returned an error left the tree as it was"
 
